@@ -20,6 +20,7 @@ import (
 type l1plan struct {
 	n, t      int
 	first     int // first element of the DFS subtree (-1: sampled case)
+	second    int // second element (-1: all; 3n: repeat of the first), used to split large subtrees
 	depth     int
 	sampleIdx int
 }
@@ -56,7 +57,13 @@ func main() {
 				}
 				for t := 1; t <= n; t++ {
 					for f := 0; f < 3*n; f++ {
-						l1plans = append(l1plans, l1plan{n: n, t: t, first: f, depth: depth})
+						if env.Thorough && n >= 3 {
+							for sec := 0; sec <= 3*n; sec++ {
+								l1plans = append(l1plans, l1plan{n: n, t: t, first: f, second: sec, depth: depth})
+							}
+							continue
+						}
+						l1plans = append(l1plans, l1plan{n: n, t: t, first: f, second: -1, depth: depth})
 					}
 				}
 			}
@@ -272,7 +279,19 @@ func dfsCase(env *vlib.Env, p l1plan, rep *vlib.Reporter) {
 	}
 	st := cloneState(root)
 	if w.step(st, alpha[p.first], false, rep) {
-		rec(st, 1)
+		switch {
+		case p.second < 0:
+			rec(st, 1)
+		case p.second < len(alpha):
+			rep.Eval(fmt.Sprintf("%d/%d/%v", p.n, p.t, st.seq), st.junk)
+			if w.step(st, alpha[p.second], false, rep) {
+				rec(st, 2)
+			}
+		case alpha[p.first].kind == 'V':
+			if w.step(st, alpha[p.first], true, rep) {
+				rec(st, 2)
+			}
+		}
 	}
 	if p.first == 0 && p.t == 1 {
 		rep.Sample(map[string]any{"layer": 1, "n": p.n, "t": p.t, "first": alpha[p.first].String(), "depth": p.depth})
